@@ -1,5 +1,6 @@
 """Symbolic normal form for element/pointer expressions into one container:
 ('elem'|'ptr', base_key, linear) and ('int', None, linear), linear = {symbol: coeff, '': const}."""
+import re
 from .frontend import kids
 from .expr import peel, callee, call_args
 
@@ -33,6 +34,9 @@ class PtrNorm(object):
         x = peel(e)
         if x is None:
             return None
+        for (c_, nf_) in getattr(self, 'seed_calls', ()):
+            if x is c_ or x is peel(c_):
+                return nf_
         v = self.keys.folder.fold(x)
         if v is not None and not (x.get('type', {}).get('qualType', '').endswith('*')):
             return ('int', None, lconst(v))
@@ -182,6 +186,7 @@ class PtrFlow(object):
     def __init__(self, cfg, keys, never_written, seeds=None, seed_calls=None):
         from .frontend import walk, qtype
         self.cfg, self.keys = cfg, keys
+        self.never_written = never_written
         self.seeds = seeds or {}
         self.seed_calls = seed_calls or []      # [(call ast, normal form of its result)]
         self.base = build_env(cfg.fn, keys, never_written)
@@ -199,6 +204,11 @@ class PtrFlow(object):
             return r
         self.at, self.after = cfg.forward({}, self._transfer, meet)
 
+    def _is_index_local(self, x):
+        from .frontend import dtype
+        return x['id'] in self.never_written and bool(kids(x)) and bool(re.match(
+            r'^(const )?(unsigned |signed )?(char|short|int|long|long long)( const)?$', (dtype(x) or '').strip()))
+
     def _env(self, st):
         e = dict(self.base)
         e.update(st)
@@ -215,7 +225,12 @@ class PtrFlow(object):
         # evaluation order approximated by post-order (operands before operators)
         for x in self._post(n.ast):
             k = x.get('kind')
-            if k == 'VarDecl' and 'init' in x and self._isptr(x):
+            if k == 'VarDecl' and 'init' in x and not self._isptr(x) and self._is_index_local(x):
+                # an index local written once: the distance it was initialised from (say, search result - first entry)
+                r = self._norm_rhs(kids(x)[-1], st)
+                if r is not None and r[0] == 'int' and any(k_ for k_ in r[2]):
+                    st[x['id']] = r
+            elif k == 'VarDecl' and 'init' in x and self._isptr(x):
                 if x['id'] in self.seeds:
                     st[x['id']] = self.seeds[x['id']]
                 else:
@@ -280,7 +295,9 @@ class PtrFlow(object):
         for (c, nf) in self.seed_calls:
             if p is c:
                 return nf
-        return PtrNorm(self.keys, self._env(st)).norm(e)
+        pn_ = PtrNorm(self.keys, self._env(st))
+        pn_.seed_calls = self.seed_calls
+        return pn_.norm(e)
 
     def _post(self, e):
         for c in kids(e):
@@ -293,7 +310,9 @@ class PtrFlow(object):
     def norm_at(self, node, e):
         """Normal form of e as evaluated at CFG node `node` (state on entry to the node; side effects
         inside e itself are applied by the normaliser)."""
-        return PtrNorm(self.keys, self._env(self.at.get(node.id, {}))).norm(e)
+        pn_ = PtrNorm(self.keys, self._env(self.at.get(node.id, {})))
+        pn_.seed_calls = self.seed_calls
+        return pn_.norm(e)
 
     def norm_at_ast(self, e):
         ns = self.cfg.nodes_for(e)
